@@ -21,8 +21,7 @@ type Solver struct {
 	out     *bufio.Reader
 	ts      *TermStore
 	defined map[*Term]string // term -> SMT name/text usable as an expression
-	lits    map[*Term]string // Bool term -> literal constant name
-	nLit    int
+	open    bool // a (push) scope with the last query is open
 	log     io.Writer
 	// stats
 	Queries, Sat, Unsat, Unknown int
@@ -58,7 +57,7 @@ func NewSolver(name string, ts *TermStore, timeoutMs int, logPath string) (*Solv
 		return nil, err
 	}
 	s := &Solver{name: name, cmd: cmd, in: in, out: bufio.NewReaderSize(outp, 1<<20), ts: ts,
-		defined: map[*Term]string{}, lits: map[*Term]string{}}
+		defined: map[*Term]string{}}
 	if logPath != "" {
 		f, err := os.Create(logPath)
 		if err == nil {
@@ -117,26 +116,6 @@ func (s *Solver) expr(t *Term) string {
 	return n
 }
 
-// lit returns a literal (Boolean constant or its negation) equivalent to t.
-func (s *Solver) lit(t *Term) string {
-	if t.op == "not" {
-		return "(not " + s.lit(t.args[0]) + ")"
-	}
-	if t.op == "var" {
-		return s.expr(t)
-	}
-	if n, ok := s.lits[t]; ok {
-		return n
-	}
-	e := s.expr(t)
-	n := fmt.Sprintf("p%d", s.nLit)
-	s.nLit++
-	s.send(fmt.Sprintf("(declare-const %s Bool)", n))
-	s.send(fmt.Sprintf("(assert (= %s %s))", n, e))
-	s.lits[t] = n
-	return n
-}
-
 type Result int
 
 const (
@@ -156,10 +135,16 @@ func (s *Solver) readLine() string {
 	return strings.TrimSpace(line)
 }
 
-// Check decides satisfiability of the conjunction of lits.
+// Check decides satisfiability of the conjunction of lits.  Each query is its
+// own (push)...(check-sat) scope, left open so that Values can read the model;
+// the scope is closed by the next Check.  Term definitions are emitted at the
+// base level before the scope is opened.
 func (s *Solver) Check(lits []*Term) Result {
-	var sb strings.Builder
-	sb.WriteString("(check-sat-assuming (")
+	if s.open {
+		s.send("(pop)")
+		s.open = false
+	}
+	texts := make([]string, 0, len(lits))
 	for _, l := range lits {
 		if l.IsTrue() {
 			continue
@@ -167,12 +152,19 @@ func (s *Solver) Check(lits []*Term) Result {
 		if l.IsFalse() {
 			return RUnsat
 		}
-		sb.WriteString(s.lit(l))
-		sb.WriteByte(' ')
+		texts = append(texts, s.expr(l))
 	}
-	sb.WriteString("))")
+	var sb strings.Builder
+	sb.WriteString("(push)\n")
+	for _, t := range texts {
+		sb.WriteString("(assert ")
+		sb.WriteString(t)
+		sb.WriteString(")\n")
+	}
+	sb.WriteString("(check-sat)")
 	t0 := time.Now()
 	s.send(sb.String())
+	s.open = true
 	res := RUnknown
 	for {
 		line := s.readLine()
@@ -194,7 +186,6 @@ func (s *Solver) Check(lits []*Term) Result {
 			}
 			continue // the verdict line still follows (or another error)
 		default:
-			// warnings etc.
 			if strings.Contains(line, "unsupported") || strings.HasPrefix(line, ";") {
 				continue
 			}
@@ -223,6 +214,16 @@ func (s *Solver) Check(lits []*Term) Result {
 // Values returns model values of vars after a sat answer.
 func (s *Solver) Values(vars []*Term) map[*Term]*big.Int {
 	out := map[*Term]*big.Int{}
+	if len(vars) == 0 {
+		return out
+	}
+	var declared []*Term
+	for _, v := range vars {
+		if _, ok := s.defined[v]; ok {
+			declared = append(declared, v)
+		}
+	}
+	vars = declared
 	if len(vars) == 0 {
 		return out
 	}
